@@ -148,6 +148,22 @@ def run(tier, PROP):
             n_tok, n_e2e = (60, 40) if tier == "quick" else (600, 400)
             os.makedirs(os.path.join(d, "e2e"), exist_ok=True)
             e2e_extra.run(chk, PROP, [("atomics", 1.0)], n_tok, n_e2e, 3, pr["driver_ok"], broken, os.path.join(d, "e2e"))
+            # an atomic instruction that the real translator turns into a call of a NON-atomic accessor is a violation by itself (the
+            # access is not atomic, whatever a single-threaded run returns): the token difference names module, function and position
+            import re as _re
+            for b in list(broken):
+                if b.get("name") != "emit-tokens":
+                    continue
+                mm = _re.search(r"first (\S+): \{'func': (\d+), 'at': (\d+), 'model': '(.*?)', 'real': '(.*?)', 'n'", b.get("msg", ""))
+                if not mm:
+                    continue
+                tm, tr = mm.group(4).split(), mm.group(5).split()
+                k = next((i for i, (x, y) in enumerate(zip(tm, tr)) if x != y), None)
+                if k is not None and "_atomic_" in tm[k] and "_atomic_" not in tr[k]:
+                    chk.violation("atomic-instruction-translated-to-plain-access",
+                                  "module %s, function %s: the real w2c2 emits a call of `%s` where the instruction is atomic (the function of its mnemonic is `%s`): "
+                                  "the access is not atomic" % (mm.group(1), mm.group(2), tr[k], tm[k]),
+                                  {"module": mm.group(1), "func": int(mm.group(2)), "model_token": tm[k], "real_token": tr[k], "kind": "atomic-plain"}, True)
         chk.coverage["rule"] = ("for every accessor function: random/boundary memory images × addresses (all alignments for plain, natural for atomic; first, last, middle) × boundary/random operands; "
                                 "case = (function, memory image, address, operands); compared: real header function / regenerated Lean body / specification computed independently in Python")
     if tier == "thorough" and pr["build_ok"]:
@@ -235,6 +251,18 @@ def mo_run(exe, lines, env=None):
 def replay(path, PROP):
     import json
     r = json.load(open(path))
+    if r.get("kind") == "atomic-plain":
+        import e2e_common as ec
+        import emit_tokens as et
+        with vlib.scratch("memr-") as d:
+            os.makedirs(os.path.join(d, "e2e"), exist_ok=True)
+            env = ec.Env(os.path.join(d, "e2e"))
+            specs = [s_ for s_ in ec.corpus_specs("C16") if ec.spec_id(s_) == r["module"]] or \
+                [dict(seed=r["module"].split(":")[0], profile=r["module"].split(":")[1], index=int(r["module"].split(":")[2]))]
+            tok = ec.emit_tokens_batch(env, specs, driver_ok=True)
+        bad = [t for t in tok.values() if t["mismatch"]]
+        print("replay %s: %s" % (r["module"], ("real w2c2 differs from the model: %r" % (bad[0]["mismatch"][0],)) if bad else "tokens equal"))
+        return 1 if bad else 0
     if "atomic_stress" in r:
         import atomic_stress
         with vlib.scratch("memr-") as d:
